@@ -401,6 +401,13 @@ package go9p
 //@   induction j
 //@   trigger nsum(a, o, i), nsum(a, o, j)
 
+//@ lemma nsum_step_le(a arr, o int, k int, i int)
+//@   property C01 C02
+//@   uses nsum_mono
+//@   hyp   0 <= k && k < i
+//@   concl nsum(a, o, k) + slenid(a[o+k]) <= nsum(a, o, i)
+//@   trigger nsum(a, o, k), nsum(a, o, i)
+
 //@ lemma nsum_ext(a arr, b arr, o int, i int)
 //@   property C01 C02
 //@   hyp   0 <= i && forall k int :: o <= k && k < o + i ==> a[k] == b[k]
@@ -430,7 +437,8 @@ package go9p
 //@     invariant 0 <= i && i <= nwname && nwname == len(wnames) && err == nil
 //@     invariant p == fc.Buf[nameoff(wnames, i):] && len(fc.Buf) >= twalksz(wnames)
 //@     invariant hdr(fc, twalksz(wnames), 110) && u32le(fc.Buf, 7) == fid && u32le(fc.Buf, 11) == newfid && u16le(fc.Buf, 15) == nwname
-//@     invariant forall k int :: 0 <= k && k < i ==> wstr(fc.Buf, nameoff(wnames, k), wnames[k])
+//@     invariant forall k int :: 0 <= k && k < i ==> u16le(fc.Buf, nameoff(wnames, k)) == len(wnames[k])
+//@     invariant [uses=nsum_step_le] forall k int :: 0 <= k && k < i ==> streq(wnames[k], fc.Buf, nameoff(wnames, k) + 2)
 //@     invariant forall k int :: 0 <= k && k < i ==> fc.Wname[k] == wnames[k]
 //@     invariant others_unchanged(fc.Wname) && obj(fc.Wname) != obj(wnames)
 //@     invariant mem_unchanged_except(fc.Buf, 0, nameoff(wnames, i))
